@@ -112,6 +112,7 @@ PROFILES = {
     'misuse': ('A', 'F', 'R', 'Xs', 'P', 'X', 'S'),
     'fail': ('A', 'F', 'R', 'Xs', 'P', 'X', 'At', 'S'),
     'ser': ('A', 'F', 'R', 'Xs', 'P', 'Sc', 'S'),
+    'norem': ('A', 'F', 'Ps', 'S'),
 }
 
 _bad_attr = {}
@@ -168,6 +169,9 @@ def ops_for(T, names, model_idx, profile, sigma, foreign=None):
         for i in model_idx:
             for a in sigma:
                 ops.append(('P', i, a))
+    if 'Ps' in kinds:
+        for i, n in zip(model_idx, names):
+            ops.append(('P', i, n))
     if 'X' in kinds:
         f = foreign or 'fifths'
         ops += [('Ax', 'foreign', f), ('Ax', 'nonelement'), ('Ax', 'none'), ('Rx', 'detached', f), ('Rx', 'none'),
